@@ -35,6 +35,11 @@ def string_ref(q):
 VALUE_REF = rf'''(?:{string_ref('"')}|{string_ref("'")}|{IDENT_REF})'''
 
 
+def sp_groups(pattern: str, flags: int) -> int:
+    import re._parser as _sp
+    return _sp.parse(pattern, flags).state.groups - 1
+
+
 def has_letters(v) -> bool:
     if isinstance(v, str):
         return any(c.isascii() and c.isalpha() for c in v)
@@ -307,3 +312,37 @@ def run(ctx, report: Report) -> None:
             r6.violation(f'{name} {d[0]} {d[1]!r}', r.where,
                          f'the escape decoder {name} and the escape grammar disagree on {d[1]!r}: text is tokenised '
                          f'one way and decoded another')
+    # group by group, with the semantics of .sub() (each match is a prefix match at some position): the group a piece of text
+    # is decoded by decides WHAT it becomes, so "escape at the end of input" must not fire while input remains
+    roles = [(1, 'hex escape', rf'\\{HEX}{{1,6}}{WS_REF}?'), (2, 'escaped character', r'\\[^\r\n\f0-9a-fA-F]'),
+             (3, 'backslash at the end of input', r'\\\Z'), (4, 'line continuation', rf'\\{NEWLINE_REF}')]
+    for name in ('css_parser.RE_CSS_ESC', 'css_parser.RE_CSS_STR_ESC'):
+        r = inv.by_name(name)
+        ngroups = sp_groups(r.pattern, r.flags)
+        for gid, what, ref in roles[:ngroups]:
+            s = rx.System()
+            try:
+                A = s.add('code', r.pattern, r.flags, group=gid)
+                B = s.add('ref', ref, re.I)
+                A.prefix_lang = B.prefix_lang = True
+                s.freeze()
+                d = rx.equivalent(A, B)
+            except rx.Unsupported as e:
+                raise AnalysisError(f'{name} group {gid}: {e}')
+            if d is not None and gid == 2:
+                # group 2 may also admit hex digits: group 1 is tried first, so they never reach it
+                s = rx.System()
+                A = s.add('code', r.pattern, r.flags, group=gid)
+                B = s.add('ref', r'\\[^\r\n\f]', re.I)
+                A.prefix_lang = B.prefix_lang = True
+                s.freeze()
+                d = rx.equivalent(A, B)
+            r6.instance({'regex': name, 'group': gid, 'role': what, 'difference_as_prefix_match': d}, key=f'{name}|g{gid}')
+            r6.obligation(d is None)
+            if d is not None:
+                r6.violation(f'{name} group {gid} {d[0]} {d[1]!r}', r.where,
+                             f'group {gid} of {name} (the {what} case of the decoder) {"also matches at the start of" if d[0] == "only-in-first" else "does not match"} '
+                             f'{d[1]!r}: `$` also matches before a final line feed, so a string that ends in a line continuation '
+                             f'("abc\\<LF>") is decoded as U+FFFD + LF instead of "abc"' if gid == 3 else
+                             f'group {gid} of {name} (the {what} case of the decoder) disagrees with the CSS escape grammar on {d[1]!r}')
+
